@@ -10,6 +10,8 @@ NOTES = {
  "C04-2": "missed at first; caught after alias chains ending in a (bare) denial were added (Sim_LeaseAnswerNeg.cfg)",
  "C01-1": "missed at first (the tampered referral was always the TLD's, whose DS a parent DS authenticates); caught after the tamper position rootref (the root's referral for the signed parent) was added to Dnssec.tla and the replay",
  "C01-2": "missed at first; caught after the tampering kind fakedname (forged CNAME vouched for by an unsigned ancestor DNAME in the authority section) was added",
+ "C02-3": "missed by C02 (whose replay feeds the verifiers directly, below the resolver's signer-zone filter); caught by C01 after the tampering kind foreigndeny (denial 'proved' by unsigned NSEC records of the parent zone, zone served by its parent's server) was added",
+ "C11-1": "missed by C11 at first, caught by C10; C11 now runs one engine shape of the UDP job walk (Trace_UdpJob: AtMostOneSend, ReleaseOnce) itself",
  "C03-1": "missed by C03 and C19 at first; caught by C19 after Ecs.tla got a sixth client whose /24 is the zero-extension of other clients' /16 announcement",
  "C05-1": "missed at first (needs an alias entry validated and its separately cached target not); caught by C06 after the Lease.tla histories were replayed with per-entry AD and judged by the clause 'AD only if every piece of a composed reply was validated' (message, byte and wire-born routes)",
  "C08-1": "missed at first; caught after the slowns shape (un-glued NS host whose address lookup outlasts the lease, directly below the root) was added to the pipeline tier",
